@@ -11,8 +11,8 @@
 (*          index per slot, 1..Dim(space)) to exact rationals (CQ.tla).    *)
 (* A program is a construction history: the store starts with the declared *)
 (* leaves (forms, cofunctions, coefficients, matrices, coarguments,        *)
-(* arguments) and every action appends one node (Add, Sub, Neg, Scale,     *)
-(* Action, Adjoint, Zero, Derivative, WSum, Repl).                         *)
+(* arguments, plain numbers 0) and every action appends one node (Add, Sub, *)
+(* Neg, Scale, Action, Adjoint, Zero, Derivative, WSum, Repl).             *)
 (*                                                                         *)
 (* The meaning of a node is defined by CONTRACTION only:                   *)
 (*   Action(A, B)  contracts the LAST slot of A with the FIRST slot of B   *)
@@ -32,6 +32,11 @@
 (*                 grouping in which ufl keeps the components              *)
 (*   Repl          ufl.replace(A, {q: r}): the tensor of A in the          *)
 (*                 environment in which q has the value of r               *)
+(*   a NUMBER 0    (Python 0, 0.0, ufl Zero()) as ONE operand of + or -    *)
+(*                 denotes the zero map of the arity of the other operand  *)
+(*                 (the neutral element of every space of multilinear      *)
+(*                 maps): B + 0, 0 + B, B - 0 denote B and 0 - B denotes   *)
+(*                 -B (sum([A, B]) = 0 + A + B, r = 0; r -= B, ...)        *)
 (* Every pass that maps over integrands / components (expand_derivatives,  *)
 (* apply_algebra_lowering, map_integrands, ...) denotes the identity on    *)
 (* the map: the prediction of a node is also the prediction of its image.  *)
@@ -158,7 +163,8 @@ FormT(id, env) ==
 
 -----------------------------------------------------------------------------
 (* Leaves.  k: "coef" Coefficient, "cof" Cofunction, "mat" Matrix, "form" Form,
-   "coarg" Coargument(space*, 1), "arg" Argument (identity operand of an action) *)
+   "coarg" Coargument(space*, 1), "arg" Argument (identity operand of an action),
+   "num" the number zero as an operand of + and - : 1 Python int 0, 2 Python float 0.0, 3 ufl Zero() *)
 Leaf(k, id) == [k |-> k, id |-> id]
 AllLeaves == <<
   Leaf("coef", 1), Leaf("coef", 2), Leaf("coef", 3),                       \*  1.. 3
@@ -169,15 +175,17 @@ AllLeaves == <<
   Leaf("form", 5), Leaf("form", 6), Leaf("form", 7), Leaf("form", 8),      \* 17..20
   Leaf("form", 9), Leaf("form", 10), Leaf("form", 11),                     \* 21..23
   Leaf("coarg", 1), Leaf("coarg", 2),                                      \* 24..25  Coargument(V*,1), (W*,1)
-  Leaf("arg", 1), Leaf("arg", 2), Leaf("arg", 3) >>                        \* 26..28  Argument(V,1), (W,1), (V,0)
+  Leaf("arg", 1), Leaf("arg", 2), Leaf("arg", 3),                          \* 26..28  Argument(V,1), (W,1), (V,0)
+  Leaf("num", 1), Leaf("num", 2), Leaf("num", 3) >>                        \* 29..31  0, 0.0, Zero()
 
 CoargSp(id) == IF id = 1 THEN SV ELSE SW
 ArgSp(id) == IF id = 2 THEN SW ELSE SV
 ArgNo(id) == IF id = 3 THEN 0 ELSE 1
 
 \* kind: "bf" a BaseForm; "coef" a primal Coefficient expression, an element of V = V** (one slot
-\* that takes a covector); "arg" an Argument: the identity with a dual slot and a primal slot
-LeafKind(l) == CASE l.k = "coef" -> "coef" [] l.k = "arg" -> "arg" [] OTHER -> "bf"
+\* that takes a covector); "arg" an Argument: the identity with a dual slot and a primal slot;
+\* "num" the number zero: no slots of its own, it takes the arity of the base form it is added to
+LeafKind(l) == CASE l.k = "coef" -> "coef" [] l.k = "arg" -> "arg" [] l.k = "num" -> "num" [] OTHER -> "bf"
 LeafArgs(l) ==
   CASE l.k = "coef" -> <<Slot(0, CoefSp(l.id), TRUE)>>
     [] l.k = "cof" -> <<Slot(0, CoefSp(l.id), FALSE)>>
@@ -185,12 +193,14 @@ LeafArgs(l) ==
     [] l.k = "form" -> FormArgs(l.id)
     [] l.k = "coarg" -> <<Slot(0, CoargSp(l.id), FALSE), Slot(1, CoargSp(l.id), TRUE)>>
     [] l.k = "arg" -> <<Slot(0, ArgSp(l.id), TRUE), Slot(ArgNo(l.id), ArgSp(l.id), FALSE)>>
+    [] l.k = "num" -> <<>>
 LeafT(l, env) ==
   LET ar == LeafArgs(l) IN
   CASE l.k \in {"coef", "cof"} -> [s \in Idx(ar) |-> env[l.id][s[1]]]
     [] l.k = "mat" -> LET m == MatVal(l.id) IN [s \in Idx(ar) |-> m[s[1]][s[2]]]
     [] l.k = "form" -> FormT(l.id, env)
     [] l.k \in {"coarg", "arg"} -> [s \in Idx(ar) |-> IF s[1] = s[2] THEN Q1 ELSE Q0]
+    [] l.k = "num" -> [s \in Idx(ar) |-> Q0]
 
 LeafNode(l) ==
   [op |-> "leaf", a |-> 0, b |-> 0, c |-> 0, w |-> 0, w2 |-> 0, w3 |-> 0, q |-> 0, dir |-> 0, z |-> 0,
@@ -242,10 +252,13 @@ NextN(args) == IF args = <<>> THEN 0 ELSE 1 + CHOOSE m \in {args[i].n : i \in DO
 (* The tensor a node denotes in an environment *)
 RECURSIVE T(_, _, _)
 T(st, i, env) ==
-  LET nd == st[i] IN
+  LET nd == st[i]
+      \* operand of + / -: the number zero is the zero map on the slots of the node
+      Opd(k) == IF st[k].kind = "num" THEN TZero(nd.args) ELSE T(st, k, env)
+  IN
   CASE nd.op = "leaf"  -> LeafT([k |-> nd.lk, id |-> nd.id], env)
-    [] nd.op = "add"   -> TAdd(T(st, nd.a, env), T(st, nd.b, env))
-    [] nd.op = "sub"   -> TSub(T(st, nd.a, env), T(st, nd.b, env))
+    [] nd.op = "add"   -> TAdd(Opd(nd.a), Opd(nd.b))
+    [] nd.op = "sub"   -> TSub(Opd(nd.a), Opd(nd.b))
     [] nd.op = "neg"   -> TScale(QI(-1), T(st, nd.a, env))
     [] nd.op = "scale" -> TScale(WeightSeq[nd.w], T(st, nd.a, env))
     [] nd.op = "act"   -> TAct(st[nd.a].args, T(st, nd.a, env), st[nd.b].args, T(st, nd.b, env))
@@ -337,6 +350,18 @@ AddSub(op) ==
     /\ Push([Node(op, i, j, x.kind, x.args, x.may \cup y.may, DegMax(x.deg, y.deg),
                   x.dif /\ y.dif, x.hasact \/ y.hasact, x.idl /\ y.idl, x.isform /\ y.isform)
              EXCEPT !.hasform = x.hasform \/ y.hasform])
+\* B + 0, 0 + B, B - 0, 0 - B: exactly one operand is a number zero (Python 0 / 0.0, ufl Zero()), the
+\* other one a base form.  BaseForm.__add__ / Form.__add__ document the first three as no-ops that
+\* return B itself ("Allow adding 0 or 0.0 as a no-op, needed for sum([a,b])"): the node keeps how
+\* ufl holds B (isform, isco); 0 - B is held like -B (see Neg)
+NumNegates(nd) == nd.op = "sub" /\ store[nd.a].kind = "num"
+AddSubNum(op) ==
+  \E i, j \in DOMAIN store :
+    /\ {store[i].kind, store[j].kind} = {"num", "bf"}
+    /\ LET x == IF store[i].kind = "bf" THEN store[i] ELSE store[j]
+           nd == [Node(op, i, j, "bf", x.args, x.may, x.deg, x.dif, x.hasact, x.idl, x.isform)
+                  EXCEPT !.hasform = x.hasform]
+       IN Push(IF NumNegates(nd) THEN nd ELSE [nd EXCEPT !.isco = x.isco])
 Neg ==
   \E i \in DOMAIN store :
     LET x == store[i] IN
@@ -393,10 +418,17 @@ Adj ==
 Zero ==
   \E z \in ZeroSel :
     Push([Node("zero", 0, 0, "bf", ZeroSigs[z], {}, Deg0, TRUE, FALSE, FALSE, FALSE) EXCEPT !.z = z])
+\* the node whose object ufl returns for node i: B + 0, 0 + B, B - 0 are B itself
+RECURSIVE Orig(_)
+Orig(i) ==
+  LET nd == store[i] IN
+  IF nd.op \in {"add", "sub"} /\ "num" \in {store[nd.a].kind, store[nd.b].kind} /\ ~NumNegates(nd)
+  THEN Orig(IF store[nd.a].kind = "num" THEN nd.b ELSE nd.a)
+  ELSE i
 \* ufl.derivative(A, q [, direction]); dir = 0: a new argument, dir = h: the coefficient h
 Der ==
   \E i \in DOMAIN store, q \in DerCoefs, dir \in {0, 2} :
-    LET x == store[i] IN
+    LET x == store[i]  xo == store[Orig(i)] IN
     /\ x.kind = "bf" /\ x.dif /\ x.deg[q] <= 2
     \* a coefficient direction: derivative(F, f, f2); the Leibniz rule for an Action takes the
     \* Adjoint of d(left), a 2-form only for an argument direction
@@ -410,9 +442,9 @@ Der ==
                   \* Adjoint: a second derivative is refused by design
                   x.dif /\ ~x.hasact, x.hasact,
                   \* D_c c is the Coargument (the identity): apply_derivatives returns the direction
-                  x.op = "leaf" /\ x.lk = "cof" /\ x.id = q /\ dir = 0, x.isform)
+                  xo.op = "leaf" /\ xo.lk = "cof" /\ xo.id = q /\ dir = 0, x.isform)
              EXCEPT !.q = q, !.dir = dir, !.hasform = x.hasform,
-                    !.isco = x.op = "leaf" /\ x.lk = "cof" /\ x.id = q /\ dir = 0])
+                    !.isco = xo.op = "leaf" /\ xo.lk = "cof" /\ xo.id = q /\ dir = 0])
 
 \* w1*x + w2*y + w3*z = FormSum((x, w1), (y, w2), (z, w3)): three different nodes with the same
 \* argument slots, pairwise different weights
@@ -442,7 +474,7 @@ Repl ==
 \* SumMode: Viable (in Push) admits only CompOps before the sum, only PostOps after it, and counts
 \* the operations after it; WSum is taken once.  (A plain disjunction: TLC -simulate draws one of
 \* the disjuncts, then one of its successors.)
-Next == AddSub("add") \/ AddSub("sub") \/ Neg \/ Scale \/ Act \/ Adj \/ Zero \/ Der \/ WSum \/ Repl
+Next == AddSub("add") \/ AddSub("sub") \/ AddSubNum("add") \/ AddSubNum("sub") \/ Neg \/ Scale \/ Act \/ Adj \/ Zero \/ Der \/ WSum \/ Repl
 Spec == Init /\ [][Next]_vars
 
 -----------------------------------------------------------------------------
